@@ -14,7 +14,7 @@ from engine.comb import Comb, I, bit
 PROPERTY = "C37"
 LEVEL = "proof"
 ASSUMPTIONS = [
-    "widths / sequence lengths swept as listed; offsets range over 0..2*width (all values of the offset signal)",
+    "widths / sequence lengths swept as listed; offset operands: a signal ranging over 0..2*width (all its values), a signal just wide enough for 0..width-1, and Python-int constants 0..width",
     "obligations named *.offset_le_width carry the precondition offset <= width, *.offset_gt_width the complement; the latter are the known finding recorded in known_findings.json",
 ]
 
@@ -28,6 +28,10 @@ class Kind(enum.Enum, shape=2):
 def configs(tier):
     W = range(1, 9) if tier == "quick" else range(1, 17)
     out = [{"fn": "scalar", "w": w} for w in W]
+    # the shape of the offset operand is a parameter too: an offset signal just wide enough for 0..w-1, and constant offsets
+    out += [{"fn": "scalar", "w": w, "off": "narrow"} for w in W if w >= 2]
+    out += [{"fn": "scalar_const", "w": w} for w in (W if tier != "quick" else (1, 2, 3, 4, 8))]
+    out += [{"fn": "vector", "n": n, "shape": "u2", "off": "narrow"} for n in (2, 3, 4)]
     lens = [1, 2, 3, 4, 5] if tier == "quick" else [1, 2, 3, 4, 5, 6, 7, 8]
     for n in lens:
         for shape in (["u2", "s2", "struct", "enum"] if (tier != "quick" or n in (2, 3)) else ["u2"]):
@@ -48,7 +52,7 @@ def run(cfg, ctx):
         w = cfg["w"]
         v = Signal(w, name="v")
         v2 = Signal(w, name="v2")
-        off = Signal(range(2 * w + 1), name="off")
+        off = Signal(range(w) if cfg.get("off") == "narrow" else range(2 * w + 1), name="off")
         ph = Signal(1, name="ph")
         c = Comb([v, v2, off, ph], lambda m: [S.shift_left(v, off, ph), S.shift_right(v, off, ph), S.rotate_left(v, off), S.rotate_right(v, off),
                                                S.generic_shift_right(v, v2, off), S.generic_shift_left(v, v2, off), S.shift_right(v, off), S.shift_left(v, off)])
@@ -72,10 +76,30 @@ def run(cfg, ctx):
         f["generic_shift_left"] = z3.And(*[b(gl, i) == z3.If(z3.UGE(I(i), oi), sel(vb, I(i) - oi, zero), sel(v2b, I(w) + I(i) - oi, zero)) for i in range(w)])
         for name, post in f.items():
             ctx.prove(f"{name}.offset_le_width", post, assume=[z3.ULE(oi, I(w))], hw=hw)
+        if cfg.get("off") == "narrow":
+            ctx.cover("off=w-1", oi == w - 1)
+            return
         for name in ("shift_right", "shift_left", "rotate_right", "rotate_left"):
             ctx.prove(f"{name}.offset_gt_width", f[name], assume=[z3.UGT(oi, I(w))], hw=hw)
         ctx.cover("off=w", oi == w)
         ctx.cover("off>w", z3.UGT(oi, I(w)))
+    elif cfg["fn"] == "scalar_const":
+        # constant offsets 0..w given as Python ints
+        w = cfg["w"]
+        v = Signal(w, name="v")
+        ph = Signal(1, name="ph")
+        ks = list(range(w + 1))
+        c = Comb([v, ph], lambda m: [x for k in ks for x in (S.shift_left(v, k, ph), S.shift_right(v, k, ph), S.rotate_left(v, k), S.rotate_right(v, k))])
+        hw = ctx.use(c.hw)
+        vv, pp = c.ins
+        b = lambda x, i: z3.Extract(i, i, x)
+        vb = [b(vv, i) for i in range(w)]
+        for n_, k in enumerate(ks):
+            sl, sr, rl, rr = c.outs[4 * n_ : 4 * n_ + 4]
+            ctx.prove(f"shift_left.const_offset[{k}]", z3.And(*[b(sl, i) == (vb[i - k] if i - k >= 0 else pp) for i in range(w)]), hw=hw)
+            ctx.prove(f"shift_right.const_offset[{k}]", z3.And(*[b(sr, i) == (vb[i + k] if i + k < w else pp) for i in range(w)]), hw=hw)
+            ctx.prove(f"rotate_left.const_offset[{k}]", z3.And(*[b(rl, i) == vb[(i - k) % w] for i in range(w)]), hw=hw)
+            ctx.prove(f"rotate_right.const_offset[{k}]", z3.And(*[b(rr, i) == vb[(i + k) % w] for i in range(w)]), hw=hw)
     else:
         n, shp = cfg["n"], cfg["shape"]
         lay = data.StructLayout({"a": 1, "b": signed(2)})
@@ -87,7 +111,7 @@ def run(cfg, ctx):
         }[shp]
         d = [mk(i) for i in range(n)]
         phs = mk(99)
-        off = Signal(range(n + 1), name="off")
+        off = Signal(range(n) if cfg.get("off") == "narrow" else range(n + 1), name="off")
         res = {}
 
         def fn(m):
@@ -122,7 +146,7 @@ def run(cfg, ctx):
             want = lay if shp == "struct" else Kind
             ok = all((r.shape() == want) if hasattr(r, "shape") else False for k in res for r in res[k])
             ctx.prove("vector.result_shape", z3.BoolVal(bool(ok)))
-        ctx.cover("off=n", z3.And(oi == n))
+        ctx.cover("off=n", z3.And(oi == n)) if cfg.get("off") != "narrow" else ctx.cover("off=n-1", z3.And(oi == n - 1))
 
 
 def _patch_generic():
